@@ -80,7 +80,7 @@ def _volatile(fi, how, calls):
     install_env()
     f = FORMULAS[fi]
     d = {P + 'A2': 1, P + 'A1': f, P + 'B1': '=%sA1' % P, P + 'C1': '=IF(TRUE,%sA1,0)' % P, P + 'D1': '=%sA2+1' % P,
-         P + 'A9': 0, P + 'R1': '=SUM(%sA1:A1,%sA9)' % (P, P), P + 'R2': '=MAX(%sA1:A1)+0' % P}
+         P + 'A9': 0, P + 'R1': '=SUM(%sA1:B1,%sA9)/2' % (P, P), P + 'R2': '=MAX(%sA1:B1)+0' % P}
     m = formulas.ExcelModel().from_dict(d).finish(complete=False)
 
     def val(v):
